@@ -193,15 +193,33 @@ def register_hooks(m, foreign=False):
     install_whitebox(m)
 
 
+LAST = {}
+
+
 def judge(case, m):
     text = D.formula_text(case)
     case = {**case, "text": text}
     m.current_case = case
+    earlier = LAST.pop("design", None)
     try:
         dm, df, meta, _ = D.run_design(case)
     except Exception as e:
         m.note("design-raised:" + type(e).__name__)
         return
+    LAST["design"] = (dm, df, case)
+    if case.get("same_formula_as_previous") and earlier is not None:
+        # a later design built from the SAME formula text on other data must not disturb the earlier one:
+        # evaluate the earlier design on its own training rows again (the hook's self-evaluations decide)
+        edm, edf, ecase = earlier
+        m.current_case = {**ecase, "evaluated_after_later_build_of_same_formula": True}
+        m.cls("earlier-design-re-evaluated")
+        for part in (edm.common, edm.group):
+            if part is not None:
+                try:
+                    part.evaluate_new_data(edf.iloc[: max(1, len(edf) // 2)])
+                except Exception as e:
+                    m.violation("newdata-evaluates", f"earlier design: {type(e).__name__}: {e}", key="earlier:raises")
+        m.current_case = case
     rng = np.random.default_rng(case["frame"]["seed"] + 2)
     idx = rng.integers(0, len(df), size=int(rng.integers(1, len(df) + 2)))
     new = df.iloc[idx]
@@ -265,9 +283,13 @@ def judge_text(text, frame, m):
 def run_shard(i, n, tier, seed, m):
     rng = random.Random(seed * 1000003 + i * 17 + 6)
     ncases = (3000 if tier == "quick" else 40000) // n
+    prev = None
     for k in range(ncases):
         case = D.random_case(rng, profile="stateful", hostile=(k % 4 == 0), group_p=0.5, min_rows=2,
                              with_refs=True)
+        if k % 4 == 3 and prev is not None and not prev.get("with_refs_used"):
+            case = {**prev, "frame": case["frame"], "same_formula_as_previous": True}
+        prev = case
         text = D.formula_text(case)
         nontrivial = bool(case["group"]) or any("(" in a or a in D.CAT_VARS for t in case["terms"] for a in t)
         m.case({**case, "text": text}, canon=[text, case["frame"]["seed"]], nontrivial=nontrivial)
